@@ -136,7 +136,8 @@ Qed.
 
 (* ---------- invariants of the segment list ---------- *)
 Definition roles_ok (S : list seg) : Prop :=
-  forall s1 s2 g, In s1 S -> In s2 S -> sgrp s1 = Some g -> sgrp s2 = Some g -> stag s1 = stag s2.
+  forall s1 s2 g, In s1 S -> In s2 S -> is_default g = false ->
+                  sgrp s1 = Some g -> sgrp s2 = Some g -> stag s1 = stag s2.
 
 Definition SInv (c : cell) : Prop :=
   NoDup (ids c) /\
@@ -154,7 +155,7 @@ Qed.
 
 Lemma SInv_app : forall c s G P,
   SInv c -> ~ In (sid s) (ids c) -> (forall p f, spar s = Some (p, f) -> In p (ids c)) ->
-  (forall g, sgrp s = Some g -> role_free c g (stag s) = true) ->
+  (forall g, sgrp s = Some g -> is_default g = false -> role_free c g (stag s) = true) ->
   SInv (mkCell (segs c ++ [s]) G P).
 Proof.
   intros c s G P [Hn [Hp Hr]] Hfresh Hpar Hrole. unfold SInv, ids in *; simpl.
@@ -164,11 +165,11 @@ Proof.
   - intros x p f Hx Hsp. rewrite map_app. apply in_or_app. apply in_app_or in Hx. destruct Hx as [Hx|[Hx|[]]].
     + left. eapply Hp; eassumption.
     + subst x. left. eapply Hpar; eassumption.
-  - intros s1 s2 g H1 H2 G1 G2. apply in_app_or in H1. apply in_app_or in H2.
+  - intros s1 s2 g H1 H2 Hd G1 G2. apply in_app_or in H1. apply in_app_or in H2.
     destruct H1 as [H1|[H1|[]]]; destruct H2 as [H2|[H2|[]]].
     + eapply Hr; eassumption.
-    + subst s2. apply (role_free_spec c g (stag s) (Hrole g G2) s1 H1 G1).
-    + subst s1. symmetry. apply (role_free_spec c g (stag s) (Hrole g G1) s2 H2 G2).
+    + subst s2. apply (role_free_spec c g (stag s) (Hrole g G2 Hd) s1 H1 G1).
+    + subst s1. symmetry. apply (role_free_spec c g (stag s) (Hrole g G1 Hd) s2 H2 G2).
     + subst. reflexivity.
 Qed.
 
